@@ -57,6 +57,11 @@ def fn_tables(prog, fnpath):
     if not h:
         return []
     ms = hir_find(h["body"], "Match")
+    # helpers that are new relative to the pinned tree were inlined into this fn (hv/inline.py): their tables count as its own
+    for helper in getattr(prog, "inlined", {}).get(fnpath, []):
+        hh = prog.hir.get(helper)
+        if hh:
+            ms = ms + hir_find(hh["body"], "Match")
     ms = [m for m in ms if m.get("src") == "Normal"]
     ms.sort(key=lambda m: -len(m["arms"]))
     return ms
